@@ -309,7 +309,11 @@ def _wide_cases(tier, seed, i0):
     counts = [99, 100, 101, 255, 256, 257]
     sel = [(e, m) for e in sorted(set(fl)) for m in counts]
     if tier != "thorough":
-        sel = [sel[(seed * 7 + k * 11) % len(sel)] for k in range(8)]
+        # every format meets a 100-frame file in every run (counters and header fields kept per 100 frames), the other
+        # boundary counts rotate with the seed
+        sel = [(e, 100) for e in sorted(set(fl))] + [("dcd", 200)] + [sel[(seed * 7 + k * 11) % len(sel)] for k in range(8)]
+    else:
+        sel = sel + [(e, m) for e in ("dcd", "xtc", "trr", "nc", "h5") for m in (200, 300, 1000)]
     for k, (ext, m) in enumerate(sel):
         c = dict(i=i, seed=common.case_seed(seed, "C01count", k), ext=ext, nf=m, na=int([1, 3, 10][k % 3]), mag=9.0, dist="spread", sign="mixed", time="nonuniform",
                  cell=["ortho", "none", "pf-tric"][k % 3], cellscale=1.0, top="ident")
